@@ -487,6 +487,10 @@ pub struct Family {
 fn env_n(n: u64) -> T {
     list(&[int_atom(n as i128)])
 }
+/// for the one family whose work doubles with n: 8 * 2^n bytes, capped at 512 KiB (larger n repeat n = 16)
+fn env_n_cap16(n: u64) -> T {
+    env_n(n.min(16))
+}
 fn env_x_n(n: u64) -> T {
     list(&[int_atom(5033), int_atom(n as i128)])
 }
@@ -524,7 +528,7 @@ pub fn families() -> Vec<Family> {
         // build a list of N conses: (defun f (N) (if (= N 0) () (c N (f (- N 1)))))
         Family { name: "cons-list", prog: "(a (q 2 2 (c 2 (c 5 ()))) (c (q 2 (i (= 5 ()) (q 1) (q 4 5 (a 2 (c 2 (c (- 5 (q . 1)) ()))))) 1) 1))", env: env_n, classic: true },
         // concat doubling: f(N, S) = if N==0 then S else f(N-1, concat S S); returns strlen
-        Family { name: "concat-doubling-strlen", prog: "(strlen (a (q 2 2 (c 2 (c 5 (c 11 ())))) (c (q 2 (i (= 5 ()) (q . 11) (q 2 2 (c 2 (c (- 5 (q . 1)) (c (concat 11 11) ()))))) 1) (c 2 (c (q . \"abcdefgh\") ())))))", env: env_n, classic: true },
+        Family { name: "concat-doubling-strlen", prog: "(strlen (a (q 2 2 (c 2 (c 5 (c 11 ())))) (c (q 2 (i (= 5 ()) (q . 11) (q 2 2 (c 2 (c (- 5 (q . 1)) (c (concat 11 11) ()))))) 1) (c 2 (c (q . \"abcdefgh\") ())))))", env: env_n_cap16, classic: true },
         // sha256 chain: f(N, S) = if N==0 then S else f(N-1, sha256 S)
         Family { name: "sha256-chain", prog: "(a (q 2 2 (c 2 (c 5 (c 11 ())))) (c (q 2 (i (= 5 ()) (q . 11) (q 2 2 (c 2 (c (- 5 (q . 1)) (c (sha256 11) ()))))) 1) (c 2 (c (q . \"seed\") ()))))", env: env_n, classic: true },
         // substr of a big env atom, N times nested inside a GC candidate: (strlen (substr BIG 1 (+ 1 N)))
@@ -770,6 +774,41 @@ pub fn p5_full() -> ProgSpace {
             let guard = list(&[atom(&[36]), guard_cost(ci, eo, en), guard_ext(ei), quote(ip), atom(&[1])]);
             (guard_ctx(ctx, guard), std_env())
         }),
+    }
+}
+
+/// GUARD-THEN-OP: an extension-gated operator (keccak256, opcode 62) used before, after and between softfork
+/// guards, and after a nested guard has exited inside an outer one: whatever a guard enables must end with it.
+pub fn p_guard_then_op() -> ProgSpace {
+    let env = std_env();
+    let k = parse_prog("(keccak256 (q . \"abc\"))");
+    let mk = |ext: u8, inner: &T, new: bool| -> T {
+        let f = if new { ClvmFlags::NEW_COST_MODEL } else { ClvmFlags::empty() };
+        let c = standalone_cost(inner, &env, f).map(|c| c + if new { 500 } else { 140 }).unwrap_or(1000);
+        list(&[atom(&[36]), quote(int_atom(c as i128)), quote(if ext == 0 { nil() } else { atom(&[ext]) }), quote(inner.clone()), atom(&[1])])
+    };
+    let c2 = |a: T, b: T| list(&[atom(&[4]), a, b]);
+    let mut progs: Vec<Vec<u8>> = vec![];
+    for new in [false, true] {
+        for ext in [0u8, 1, 2] {
+            let nested = mk(1, &k, new);
+            let inners = [parse_prog("(q . 1)"), k.clone(), nested.clone(), c2(nested.clone(), k.clone()), c2(k.clone(), nested.clone())];
+            for inner in &inners {
+                let g = mk(ext, inner, new);
+                progs.push(c2(g.clone(), k.clone()).ser());
+                progs.push(c2(k.clone(), g.clone()).ser());
+                progs.push(c2(g.clone(), c2(k.clone(), g.clone())).ser());
+                progs.push(g.ser());
+            }
+        }
+    }
+    progs.sort();
+    progs.dedup();
+    let total = progs.len() as u64;
+    ProgSpace {
+        name: format!("GUARD-THEN-OP({total} programs: keccak256 before/after/between/inside guards of extension 0,1,2, nested)"),
+        total,
+        get: Box::new(move |i| (tree::deser(&progs[i as usize]).unwrap().0, std_env())),
     }
 }
 
